@@ -52,6 +52,15 @@ class Sym:
         return f"Sym({self.kind},{self.t},{self.cls})"
 
 
+class OptNum(Sym):
+    """a number-or-None entity field: t is the numeric value, none the flag"""
+    __slots__ = ('none',)
+
+    def __init__(self, t, none):
+        Sym.__init__(self, 'num', t)
+        self.none = none
+
+
 class Strings:
     """Interning of string constants as ints (>= 10**6) and of enum members."""
     def __init__(self):
@@ -374,6 +383,10 @@ class State:
         return s
 
     def assume(self, f):
-        if f is True or (z3.is_true(f) if z3.is_ast(f) else False):
+        if isinstance(f, bool):
+            if f:
+                return
+            f = z3.BoolVal(False)
+        if z3.is_true(f):
             return
         self.pc.append(f)
